@@ -184,37 +184,43 @@ def I256.wrappingMul (a b : I256) : I256 :=
   let lh := wrapI128 (asI128 a.lo * b.hi)
   ⟨low, wrapI128 (wrapI128 (asI128 high + hl) + lh)⟩
 
+/-- `i256::checked_mul`, block "Perform checked multiplication on absolute values" …
+"high.checked_add(lh)": `mulx` of the low limbs, the two cross products with `u128::checked_mul`,
+accumulated into the high limb with `u128::checked_add`; `None` = overflow.
+`ll`,`lh` = limbs of `l_abs` (high read `as u128`), `rl`,`rh` = limbs of `r_abs`. -/
+def mulCore (ll lh rl rh : Nat) : Option (Nat × Nat) :=
+  -- let (low, high) = mulx(l_abs.low, r_abs.low);
+  match checkedMulU lh rl with            -- let Some(hl) = (l_abs.high as u128).checked_mul(r_abs.low)
+  | none => none
+  | some hl =>
+  match checkedMulU ll rh with            -- let Some(lh) = l_abs.low.checked_mul(r_abs.high as u128)
+  | none => none
+  | some x =>
+  match checkedAddU (mulx ll rl).2 hl with -- let Some(high) = high.checked_add(hl)
+  | none => none
+  | some h1 =>
+  match checkedAddU h1 x with             -- let Some(high) = high.checked_add(lh)
+  | none => none
+  | some H => some ((mulx ll rl).1, H)
+
+/-- `i256::checked_mul`, block "Reverse absolute value, if necessary":
+`(low ^ out_sa).overflowing_sub(out_sa)`, `(high ^ out_sa).wrapping_sub(out_sa).wrapping_sub(c as u128) as i128` -/
+def signFix (low H out_sa : Nat) : I256 :=
+  ⟨(overflowingSubU (low ^^^ out_sa) out_sa).1,
+   asI128 (wrappingSubU (wrappingSubU (H ^^^ out_sa) out_sa) (b2n (overflowingSubU (low ^^^ out_sa) out_sa).2))⟩
+
 /-- `i256::checked_mul` -/
 def I256.checkedMul (a b : I256) : Option I256 :=
   if a.isEq I256.ZERO || b.isEq I256.ZERO then some I256.ZERO else
-  -- Shift sign bit down to construct mask of all set bits if negative
-  let l_sa := a.hi >>> MUL_L_SIGN_SHIFT
-  let r_sa := b.hi >>> MUL_R_SIGN_SHIFT
-  let out_sa := asU128 l_sa ^^^ asU128 r_sa
-  -- Compute absolute values
-  let l_abs := a.wrappingAbs
-  let r_abs := b.wrappingAbs
   -- Overflow if both high parts are non-zero
-  if l_abs.hi != 0 && r_abs.hi != 0 then none else
-  -- Perform checked multiplication on absolute values
-  let (low, high) := mulx l_abs.lo r_abs.lo
-  match checkedMulU (asU128 l_abs.hi) r_abs.lo with
+  if a.wrappingAbs.hi != 0 && b.wrappingAbs.hi != 0 then none else
+  match mulCore a.wrappingAbs.lo (asU128 a.wrappingAbs.hi) b.wrappingAbs.lo (asU128 b.wrappingAbs.hi) with
   | none => none
-  | some hl =>
-  match checkedMulU l_abs.lo (asU128 r_abs.hi) with
-  | none => none
-  | some lh =>
-  match checkedAddU high hl with
-  | none => none
-  | some high =>
-  match checkedAddU high lh with
-  | none => none
-  | some high =>
-  -- Reverse absolute value, if necessary
-  let (low, c) := overflowingSubU (low ^^^ out_sa) out_sa
-  let high := asI128 (wrappingSubU (wrappingSubU (high ^^^ out_sa) out_sa) (b2n c))
-  -- Check for overflow in final conversion
-  if decide (high < 0) == (a.isNegative != b.isNegative) then some ⟨low, high⟩ else none
+  | some (low, H) =>
+    -- Shift sign bit down to construct mask of all set bits if negative: out_sa = (l_sa ^ r_sa) as u128
+    let r := signFix low H (asU128 (a.hi >>> MUL_L_SIGN_SHIFT) ^^^ asU128 (b.hi >>> MUL_R_SIGN_SHIFT))
+    -- Check for overflow in final conversion
+    if decide (r.hi < 0) == (a.isNegative != b.isNegative) then some r else none
 
 /-- `i256::div_rem` — the long division of `bigint/div.rs` is replaced by its contract
 (`Int.tdiv`, `Int.tmod` of the absolute values); the sign fix-ups are as written.
